@@ -314,3 +314,198 @@ def check_c15(tier, replay=None):
                           ["the harness projects UciCommand to JSON field by field (durations as milliseconds, numbers as decimal strings)",
                            "don't-care class per DESIGN.md Appendix B.3/B.4 (tabs as separators, extra tokens after complete commands, signed numbers, numbers above 2^63-1, fifth move letter k/p/upper case)"],
                           weight=lambda c: 20480 if c["k"] == "fmt_all" else 1 + len(c["s"]) // 50)
+
+
+# --------------------------------------------------------------------------- C19
+NUMERIC = {"wtime", "btime", "winc", "binc", "createdAt", "rating", "aiLevel", "initial", "increment", "daysPerTurn", "claimWinInSeconds",
+           "id#status", "ratingDiff", "ai", "secondsLeft", "limit", "lag"}
+BOOLEAN = {"rated", "provisional", "wdraw", "bdraw", "wtakeback", "btakeback", "gone", "hasMoved", "bot", "board", "patron", "online"}
+STATUS = ["created", "started", "aborted", "mate", "resign", "stalemate", "timeout", "draw", "outoftime", "cheat", "noStart", "unknownFinish", "variantEnd"]
+VARIANTS = ["standard", "crazyhouse", "chess960", "fromPosition", "kingOfTheHill", "threeCheck", "antichess", "atomic", "horde", "racingKings"]
+SPEEDS = ["ultraBullet", "bullet", "blitz", "rapid", "classical", "correspondence"]
+PERFS = SPEEDS + ["standard", "chess960", "kingOfTheHill", "antichess", "atomic", "threeCheck", "racingKings", "crazyhouse", "puzzle"]
+SOURCES = ["lobby", "friend", "ai", "api", "arena", "position", "import", "importlive", "simul", "relay", "pool", "swiss"]
+TEXTS = ["thibault", "Good luck, have fun", 'he said "hi"', "back\\slash", "tab\there", "naïve ♞ 🙂", "a/b", "", "line\nbreak", "x" * 200]
+
+
+def encode_doc(msg, rng, null_for_none=False):
+    """environment model: abstract message -> JSON text in the Lichess layout"""
+    root = {}
+    for k, v in msg.items():
+        if v == "none":
+            parent = k.rsplit(".", 1)[0] + "." if "." in k else ""
+            siblings = [kk for kk, vv in msg.items() if kk != k and kk.startswith(parent) and "." not in kk[len(parent):] and vv != "none"]
+            if null_for_none and k.split(".")[-1] in ("title", "winner", "rematch", "tournamentId") and siblings:
+                v = None
+            else:
+                continue
+        parts = k.split(".")
+        leaf = parts[-1]
+        tkey = "id#status" if k.endswith("status.id") else leaf
+        if v is not None:
+            if tkey in NUMERIC:
+                v = int(v)
+            elif leaf in BOOLEAN:
+                v = v == "true"
+        d = root
+        for p in parts[:-1]:
+            d = d.setdefault(p, {})
+        d[leaf] = v
+    if msg["type"] == "gameFull":
+        root["state"]["type"] = "gameState"      # lila nests the state with its own type tag
+    return json.dumps(root, ensure_ascii=rng.random() < 0.5)
+
+
+def opt(rng, v, p=0.5):
+    return v if rng.random() < p else "none"
+
+
+def gen_state(rng, games, prefix):
+    g = rng.choice(games)
+    n = rng.choice([0, 0, 1, 2, 5, 30, len(g)])
+    st = {"moves": " ".join(g[:n]), "wtime": str(rng.choice([0, 1, 7598040, 2147483647])), "btime": str(rng.choice([0, 59000, 8395220])),
+          "winc": str(rng.choice([0, 10000])), "binc": str(rng.choice([0, 2000])), "status": rng.choice(STATUS),
+          "wdraw": opt(rng, rng.choice(["true", "false"])), "bdraw": opt(rng, rng.choice(["true", "false"])),
+          "wtakeback": opt(rng, rng.choice(["true", "false"])), "btakeback": opt(rng, rng.choice(["true", "false"])),
+          "winner": opt(rng, rng.choice(["white", "black"]), 0.3), "rematch": opt(rng, "Xyz12abc", 0.2)}
+    return {prefix + k: v for k, v in st.items()}
+
+
+def gen_player(rng, prefix):
+    return {prefix + "id": rng.choice(["lovlas", "leela", "inkayaku-bot"]), prefix + "aiLevel": opt(rng, str(rng.randrange(1, 9)), 0.2),
+            prefix + "name": opt(rng, rng.choice(TEXTS[:3] + ["Lovlas"])), prefix + "title": opt(rng, rng.choice(["IM", "BOT", "GM"])),
+            prefix + "rating": opt(rng, str(rng.choice([800, 1500, 2500, 3300]))), prefix + "provisional": opt(rng, rng.choice(["true", "false"]))}
+
+
+def gen_user(rng, prefix, present):
+    keys = ["id", "name", "title", "rating", "provisional", "patron", "online", "lag"]
+    if not present:
+        return {prefix + k: "none" for k in keys}
+    return {prefix + "id": "lovlas", prefix + "name": rng.choice(["Lovlas", "thibot"]), prefix + "title": opt(rng, "IM"), prefix + "rating": str(rng.choice([1500, 2506])),
+            prefix + "provisional": opt(rng, "true"), prefix + "patron": opt(rng, "false"), prefix + "online": opt(rng, "true"), prefix + "lag": opt(rng, str(rng.randrange(0, 9)))}
+
+
+def gen_msg(rng, games, ty):
+    m = {"type": ty}
+    if ty == "gameFull":
+        m.update({"id": "5IrD6Gzz", "variant.key": rng.choice(VARIANTS), "variant.name": "Standard", "variant.short": "Std", "speed": rng.choice(SPEEDS),
+                  "perf.name": rng.choice(["Classical", "Blitz"]), "rated": rng.choice(["true", "false"]), "createdAt": str(rng.choice([0, 1523825103562, 1700000000000])),
+                  "initialFen": rng.choice(["startpos", "rnbqkbnr/pppppppp/8/8/8/8/PPPPPPPP/RNBQKBNR w KQkq - 0 1"]),
+                  "daysPerTurn": opt(rng, str(rng.randrange(1, 15)), 0.2), "tournamentId": opt(rng, "abc12345", 0.2)})
+        if rng.random() < 0.6:
+            m.update({"clock.initial": str(rng.choice([0, 60000, 1200000])), "clock.increment": str(rng.choice([0, 10000]))})
+        else:
+            m.update({"clock.initial": "none", "clock.increment": "none"})
+        m.update(gen_player(rng, "white."))
+        m.update(gen_player(rng, "black."))
+        m.update(gen_state(rng, games, "state."))
+    elif ty == "gameState":
+        m.update(gen_state(rng, games, ""))
+    elif ty == "chatLine":
+        m.update({"room": rng.choice(["player", "spectator"]), "username": rng.choice(TEXTS[:4] + ["lichess"]), "text": rng.choice(TEXTS)})
+    elif ty == "opponentGone":
+        m.update({"gone": rng.choice(["true", "false"]), "claimWinInSeconds": opt(rng, str(rng.choice([0, 8, 30])), 0.7)})
+    elif ty in ("gameStart", "gameFinish"):
+        m.update({"game.fullId": "rCRw1AuOvonq", "game.gameId": "rCRw1AuO", "game.fen": "r1bqkbnr/pppp2pp/2n1pp2/8/8/3PP3/PPPKBPPP/RNBQ2NR w HAkq - 2 5",
+                  "game.color": rng.choice(["white", "black"]), "game.lastMove": rng.choice(["b8c6", "", "e7e8q"]), "game.source": rng.choice(SOURCES),
+                  "game.status.id": str(rng.choice([20, 30, 31])), "game.status.name": rng.choice(STATUS), "game.variant.key": rng.choice(VARIANTS),
+                  "game.variant.name": "Standard", "game.speed": rng.choice(SPEEDS), "game.perf": rng.choice(PERFS), "game.rated": rng.choice(["true", "false"]),
+                  "game.hasMoved": rng.choice(["true", "false"]), "game.opponent.id": "philippe", "game.opponent.username": rng.choice(["Philippe", TEXTS[2]]),
+                  "game.opponent.rating": opt(rng, "1790"), "game.opponent.ratingDiff": opt(rng, str(rng.choice([-12, 0, 7])), 0.3), "game.opponent.ai": opt(rng, "3", 0.1),
+                  "game.secondsLeft": opt(rng, "1209600"), "game.tournamentId": opt(rng, "t1", 0.2), "game.swissId": opt(rng, "s1", 0.2),
+                  "game.orientation": opt(rng, rng.choice(["white", "black"]), 0.3), "game.winner": opt(rng, rng.choice(["white", "black"]), 0.3),
+                  "game.ratingDiff": opt(rng, str(rng.choice([-8, 0, 11])), 0.3)})
+        if rng.random() < 0.6:
+            m.update({"game.compat.bot": rng.choice(["true", "false"]), "game.compat.board": rng.choice(["true", "false"])})
+        else:
+            m.update({"game.compat.bot": "none", "game.compat.board": "none"})
+    else:
+        tc = rng.choice(["clock", "correspondence", "unlimited"])
+        m.update({"challenge.id": "7pGLxJ4F", "challenge.url": "https://lichess.org/VU0nyvsW", "challenge.status": rng.choice(["created", "offline", "canceled", "declined", "accepted"]),
+                  "challenge.variant.key": rng.choice(VARIANTS), "challenge.variant.name": "Standard", "challenge.variant.short": "Std",
+                  "challenge.rated": rng.choice(["true", "false"]), "challenge.speed": rng.choice(SPEEDS), "challenge.timeControl.type": tc,
+                  "challenge.timeControl.limit": str(rng.choice([0, 600])) if tc == "clock" else "none",
+                  "challenge.timeControl.increment": str(rng.choice([0, 5])) if tc == "clock" else "none",
+                  "challenge.timeControl.show": "10+0" if tc == "clock" else "none",
+                  "challenge.timeControl.daysPerTurn": str(rng.randrange(1, 15)) if tc == "correspondence" else "none",
+                  "challenge.color": rng.choice(["random", "white", "black"]), "challenge.finalColor": rng.choice(["white", "black"]),
+                  "challenge.perf.icon": rng.choice(["", "#"]), "challenge.perf.name": "Rapid", "challenge.rematchOf": opt(rng, "abcd1234", 0.2),
+                  "challenge.direction": opt(rng, rng.choice(["in", "out"])), "challenge.initialFen": opt(rng, "startpos", 0.2), "challenge.declineReason": "none"})
+        m.update(gen_user(rng, "challenge.challenger.", rng.random() < 0.8))
+        m.update(gen_user(rng, "challenge.destUser.", rng.random() < 0.8))
+        if ty == "challenge":
+            if rng.random() < 0.6:
+                m.update({"compat.bot": rng.choice(["true", "false"]), "compat.board": rng.choice(["true", "false"])})
+            else:
+                m.update({"compat.bot": "none", "compat.board": "none"})
+    return m
+
+
+def legal_games(wd, rng, n, plies):
+    """real legal games (UCI move lists) produced by the board itself along random walks"""
+    roots = corpus(wd)
+    start = [r for r in roots if "start" in r["tags"] and "flipped" not in r["tags"]]
+    cases = [{"id": i + 1, "fen": start[0]["fen"], "ops": [{"op": "walk", "plies": plies, "seed": rng.randrange(1 << 30)}]} for i in range(n)]
+    tr = run_harness("board", cases, wd, "games", "C19")
+    games = {}
+    for e in read_ndjson(tr):
+        if e["ev"] == "make":
+            games.setdefault(e["c"], []).append(e["uci"])
+    return list(games.values())
+
+
+def check_c19(tier, replay=None):
+    t0 = time.time()
+    T = tier == "thorough"
+    wd = workdir("C19")
+    rng = random.Random("C19-%d" % seed())
+    cases = []
+
+    def add(msg, cls, doc=None, why=""):
+        kind = "game" if msg["type"] in ("gameFull", "gameState", "chatLine", "opponentGone") else "event"
+        cases.append({"id": len(cases) + 1, "family": "lichess", "kind": kind, "msg": msg, "cls": cls, "doc": doc if doc is not None else encode_doc(msg, rng, rng.random() < 0.3),
+                      "why": why, "key": msg})
+
+    if replay:
+        c = json.load(open(replay))
+        cases.append(dict(c, id=1))
+    else:
+        games = legal_games(wd, rng, 40 if T else 12, 400 if T else 200) + [[]]
+        types = ["gameFull", "gameState", "chatLine", "opponentGone", "gameStart", "gameFinish", "challenge", "challengeCanceled", "challengeDeclined"]
+        for _ in range(100000 // 9 if T else 350):
+            for ty in types:
+                add(gen_msg(rng, games, ty), "std", why="documented shape, random optional subset")
+        # every status / variant / speed / source key once per shape that carries it
+        for st in STATUS:
+            m = gen_msg(rng, games, "gameState"); m["status"] = st; add(m, "std", why="every status key")
+        for v in VARIANTS:
+            m = gen_msg(rng, games, "gameFull"); m["variant.key"] = v; add(m, "std", why="every variant key")
+        for s in SOURCES:
+            m = gen_msg(rng, games, "gameStart"); m["game.source"] = s; add(m, "std", why="every source key")
+        for p in PERFS:
+            m = gen_msg(rng, games, "gameFinish"); m["game.perf"] = p; add(m, "std", why="every perf key")
+        # all optional fields absent / all present
+        for ty in types:
+            m = gen_msg(rng, games, ty)
+            add({k: v for k, v in m.items()}, "std", why="as generated")
+        # don't-care classes: escapes inside the move string; shapes the model is stricter about than (we believe) the API
+        for _ in range(200 if T else 20):
+            m = gen_msg(rng, games, "gameState")
+            if m["moves"]:
+                doc = encode_doc(m, rng).replace(m["moves"], m["moves"].replace("e", "\\u0065", 1), 1)
+                add(m, "escape", doc, "move string containing a JSON escape (never sent by Lichess)")
+            m = gen_msg(rng, games, "gameFull")
+            m2 = dict(m)
+            m2["black.id"] = "none"
+            m2["black.aiLevel"] = "3"
+            add(m2, "uncertain", why="AI player object without id (shape remembered, not re-read)")
+    log("C19: %d documents" % len(cases))
+    rule = ("documents of the nine documented shapes generated as abstract messages (flat field -> value records with random subsets of the optional fields, "
+            "every enumerated key, move lists taken from real legal games of 0..400 plies incl. castling and promotions, strings with quotes, backslashes, "
+            "control and non-BMP characters, null for absent nullable fields), encoded to JSON text by the driver's encoder (the environment model), decoded "
+            "by the real serde models one document per line; TLC (Lichess.tla) checks the message is a documented shape and compares the decoded value field by "
+            "field with what the message carries. distinct_nontrivial = distinct documented-shape messages")
+    return run_text_check("C19", tier, "lichess", "LichessTrace", cases, wd, t0, rule,
+                          ["field names, optionality and vocabularies are those written in the serde models and remembered from the public Bot API (no network to re-read it)",
+                           "the encoder (abstract message -> JSON text) is the trusted environment model",
+                           "don't-care: escapes inside moves; AI players without id; declineReason/rules (shape uncertain)"])
